@@ -108,13 +108,15 @@ func legNearMiss(c *shardCtx, thorough bool) {
 		}
 		c.eval(seed, "")
 		c.eval(spellVisible(vis), "")
-		mutateTokens(vis, func(m []token) { c.eval(spellVisible(m), "") })
-		mutateTokens(all, func(m []token) { c.eval(spellAll(m), "") })
+		// every mutant is tried twice: alone, and after a valid leading section (the production parser decides
+		// the first section with unbounded look-ahead and later ones with error recovery — different code paths)
+		mutateTokens(vis, func(m []token) { c.eval(spellVisible(m), ""); c.eval("x{}\n"+spellVisible(m), "") })
+		mutateTokens(all, func(m []token) { c.eval(spellAll(m), ""); c.eval("x{}\n"+spellAll(m), "") })
 		if thorough {
 			// second order on the visible tokens: every pair of single mutations (delete/duplicate/swap) applied in sequence
 			mutateTokens(vis, func(m []token) {
 				m2 := append([]token{}, m...)
-				mutateTokens(m2, func(mm []token) { c.eval(spellVisible(mm), "") })
+				mutateTokens(m2, func(mm []token) { c.eval("x{}\n"+spellVisible(mm), "") })
 			})
 		}
 	}
